@@ -8,11 +8,24 @@ namespace Sqlize
 /-- the bare `reference` options `AddForeignKey` attaches to a column are not part of the comparison -/
 def withoutFkMarks (opts : List Opt) : List Opt := opts.filter (fun o => !(o.kind == .reference && !o.hasExpr))
 
+/-- every single quote doubled (`RestoreStringSingleQuotes`); the same function as `String.replace "'" "''"`, written by
+    structural recursion so that its injectivity can be proved (tests below; the correspondence compares the result) -/
+def dqChars : List Char → List Char
+  | [] => []
+  | c :: r => if c == '\'' then '\'' :: '\'' :: dqChars r else c :: dqChars r
+
+def doubleQuotes (s : String) : String := String.ofList (dqChars s.toList)
+
+#guard doubleQuotes "b's" == "b's".replace "'" "''"
+#guard doubleQuotes "''a'" == "''a'".replace "'" "''"
+#guard doubleQuotes "" == "".replace "'" "''"
+#guard doubleQuotes "plain — text" == "plain — text".replace "'" "''"
+
 /-- `optionKey`: kind and restored value (`"<Tp> <StrValue>"` for options built without an expression node) -/
 def Opt.key (o : Opt) : String :=
   match o.kind with
   | .default => if o.hasExpr then "DEFAULT " ++ defaultCanon o.dflt else "raw-default " ++ defaultCanon o.dflt
-  | .comment => if o.hasExpr then "COMMENT '" ++ o.text.replace "'" "''" ++ "'" else "raw-comment " ++ o.text
+  | .comment => if o.hasExpr then "COMMENT '" ++ doubleQuotes o.text ++ "'" else "raw-comment " ++ o.text
   | .primaryKey => "PRIMARY KEY"
   | .notNull => "NOT NULL"
   | .null => "NULL"
